@@ -5,8 +5,16 @@
 (* (structural / harness-infrastructure conditions).                         *)
 EXTENDS TLC
 Blame ==
-     "hb.phase"   :> {"C01", "C03", "C04"}
-  @@ "hb.fifo"    :> {"C01"}
+     "hb.phase.mailbox" :> {"C01", "C03", "C04"}
+  @@ "hb.fifo.mailbox"  :> {"C01"}
+  @@ "hb.phase.timer"   :> {"C10", "C01"}
+  @@ "hb.fifo.timer"    :> {"C10", "C01"}
+  @@ "hb.phase.parent"  :> {"C16"}
+  @@ "hb.fifo.parent"   :> {"C16"}
+  @@ "hb.phase.stream"  :> {"C13"}
+  @@ "hb.fifo.stream"   :> {"C13"}
+  @@ "hb.phase.broker"  :> {"C09"}
+  @@ "hb.fifo.broker"   :> {"C09"}
   @@ "hb.inst"    :> {"C07"}
   @@ "he.phase"   :> {"C01"}
   @@ "he.msg"     :> {"C01"}
